@@ -539,6 +539,10 @@ def q_prop_other(ds): return ds.Select("lambda e: e.ojet().attr['b'](2)")
 def q_default_stage(ds): return ds.Select("lambda e, *, k=scale_impl_c09(1.5, by=4.0): e.met() * k")
 # ... the default is evaluated where the nested lambda is WRITTEN: its own parameter (same name as the enclosing one) means nothing there
 def q_default_same_name(ds): return ds.Select("lambda j: j.jets().Select(lambda j, *, s=j.rho(): j.pt() * s)")
+# a VARIABLE of the query (a lambda parameter) that carries the name of a registered function and is called: no call site of that function
+def q_param_named_like_registered(ds): return ds.Select("lambda scale_impl_c09: scale_impl_c09(1.5)")
+def q_param_named_like_registered_nested(ds): return ds.Select("lambda e: e.jets().Select(lambda scale_impl_c09: scale_impl_c09(1.5))")
+def q_param_named_like_registered_py(ds): return ds.Select(lambda one_c09: one_c09(1.5))
 '''
 
 
@@ -563,6 +567,9 @@ def directed(ctx):
         "q_default_stage": ([("func",)], ["func"], "k=scale_impl_c09(1.5, 4.0)", None),
         "q_default_same_name": ([("method",), ("evtmethod",)], ["method", "evtmethod"], "s=j.rho()", None),
         "q_prop_other": ([("prop2",)], ["prop2"], "attr(2)", "['b']"),
+        "q_param_named_like_registered": ([], [], "scale_impl_c09(1.5)", "2.0"),
+        "q_param_named_like_registered_nested": ([], [], "scale_impl_c09(1.5))", "2.0"),
+        "q_param_named_like_registered_py": ([], [], "one_c09(1.5)", "MetaData"),
         "q_duck_collection": ([("method",)], ["method"], "j.pt()", None),
         "q_duck_collection_where": ([("method",), ("method",)], ["method", "method"], "j.eta() > 1", None),
     }
